@@ -2,7 +2,7 @@
 teardown-under-valgrind cases."""
 from .driver import Case
 
-HEADER = "From RM Require Import Lifecycle."
+HEADER = "From Coq Require Import List ZArith. Import ListNotations. From RM Require Import Lifecycle. Open Scope Z_scope."
 KINDS = {  # kind -> (drains at teardown, handles clonable, max listeners)
     "uni_move_atomic": (True, False, 1), "uni_move_full_sync": (True, False, 1),
     "uni_zero_copy_atomic": (False, False, 1), "uni_zero_copy_full_sync": (False, False, 1),
